@@ -10,6 +10,7 @@ fn main() {
     "replay" => vh::replay::run(&args[2]),
     "c01" => vh::engines::c01::run(),
     "c06" => vh::engines::c06::run(),
+    "c07" => vh::engines::c07::run(),
     "c09" => vh::engines::c09::run(),
     "c13" => vh::engines::c13::run(),
     "parse" => {
